@@ -272,7 +272,7 @@ func (wf *WALFileType) readTGData() (tgID int64, tgSerialized []byte, err error)
 	}
 	tgLen := io.ToInt64(tgLenSerialized)
 
-	if !sanityCheckValue(wf.FilePtr, tgLen) {
+	if !sanityCheckValue(wf.FilePtr, tgLen) || tgLen < tgIDBytes {
 		return 0, nil, errors.New(io.GetCallerFileContext(0) + fmt.Sprintf(": Insane TG Length: %d", tgLen))
 	}
 
